@@ -1,9 +1,114 @@
 package c64
 
+// Property C08, in-repo part for gonum.org/v1/gonum/internal/asm/c64: every
+// exported kernel against the scalar loop of its doc comment. This file is
+// injected into the package with go test -overlay; the machinery is in
+// verifharness/inrepo/ik.
+
 import (
 	"testing"
 
+	"verifharness/inrepo/ik"
 	"verifharness/vk"
 )
 
 func TestMain(m *testing.M) { vk.Main(m, "C08") }
+
+type (
+	vkArgs = ik.Args[complex64]
+	vkOp   = ik.Op[complex64]
+)
+
+var (
+	vkAll    = []int{ik.ClsFinite, ik.ClsExtreme, ik.ClsSpecial}
+	vkNoSpec = []int{ik.ClsFinite, ik.ClsExtreme}
+)
+
+func vkRet(v complex64) complex128 { return complex128(v) }
+
+// The four Axpy kernels are compared with a rounding bound (Approx), not bit
+// for bit: see ik.checkApproxAxpy for the reason (float64 intermediates of Go's
+// complex64 product versus single-precision products in the assembly).
+var vkOps = []*vkOp{
+	{Name: "AxpyUnitary", Family: "Axpy", Classes: vkAll, Approx: true, Ref: ik.RefAxpyUnitary[complex64],
+		Shape: ik.Shape{HasX: true, HasY: true, WritesY: true, Alpha: true},
+		Call:  func(a *vkArgs) { AxpyUnitary(a.Alpha, a.X, a.Y) }},
+	{Name: "AxpyUnitaryTo", Family: "Axpy", Classes: vkAll, Approx: true, Ref: ik.RefAxpyUnitaryTo[complex64],
+		Shape: ik.Shape{HasX: true, HasY: true, HasDst: true, Alpha: true, AliasX: true, AliasY: true},
+		Call:  func(a *vkArgs) { AxpyUnitaryTo(a.Dst, a.Alpha, a.X, a.Y) }},
+	{Name: "AxpyInc", Family: "Axpy", Classes: vkAll, Approx: true, Ref: ik.RefAxpyInc[complex64],
+		Shape: ik.Shape{HasX: true, HasY: true, Inc: true, Idx: true, WritesY: true, Alpha: true, NegInc: true},
+		Call:  func(a *vkArgs) { AxpyInc(a.Alpha, a.X, a.Y, a.N, a.IncX, a.IncY, a.IX, a.IY) }},
+	{Name: "AxpyIncTo", Family: "Axpy", Classes: vkAll, Approx: true, Ref: ik.RefAxpyIncTo[complex64],
+		Shape: ik.Shape{HasX: true, HasY: true, HasDst: true, Inc: true, Idx: true, Alpha: true, AliasX: true, AliasY: true, NegInc: true},
+		Call: func(a *vkArgs) {
+			AxpyIncTo(a.Dst, a.IncD, a.ID, a.Alpha, a.X, a.Y, a.N, a.IncX, a.IncY, a.IX, a.IY)
+		}},
+	{Name: "DotuUnitary", Family: "Dot", Classes: vkNoSpec, Red: ik.RedDot,
+		Shape: ik.Shape{HasX: true, HasY: true},
+		Call:  func(a *vkArgs) { a.Ret = vkRet(DotuUnitary(a.X, a.Y)) }},
+	{Name: "DotcUnitary", Family: "Dot", Classes: vkNoSpec, Red: ik.RedDotc,
+		Shape: ik.Shape{HasX: true, HasY: true},
+		Call:  func(a *vkArgs) { a.Ret = vkRet(DotcUnitary(a.X, a.Y)) }},
+	{Name: "DotuInc", Family: "Dot", Classes: vkNoSpec, Red: ik.RedDot,
+		Shape: ik.Shape{HasX: true, HasY: true, Inc: true, Idx: true, NegInc: true},
+		Call:  func(a *vkArgs) { a.Ret = vkRet(DotuInc(a.X, a.Y, a.N, a.IncX, a.IncY, a.IX, a.IY)) }},
+	{Name: "DotcInc", Family: "Dot", Classes: vkNoSpec, Red: ik.RedDotc,
+		Shape: ik.Shape{HasX: true, HasY: true, Inc: true, Idx: true, NegInc: true},
+		Call:  func(a *vkArgs) { a.Ret = vkRet(DotcInc(a.X, a.Y, a.N, a.IncX, a.IncY, a.IX, a.IY)) }},
+	// DotUnitary is sum conj(x[i]) * y[i], the same value as DotcUnitary.
+	{Name: "DotUnitary", Family: "Dot", Classes: vkNoSpec, Red: ik.RedDotc,
+		Shape: ik.Shape{HasX: true, HasY: true},
+		Call:  func(a *vkArgs) { a.Ret = vkRet(DotUnitary(a.X, a.Y)) }},
+	{Name: "ScalUnitary", Family: "Scal", Classes: vkAll, Ref: ik.RefScalUnitary[complex64],
+		Shape: ik.Shape{HasX: true, WritesX: true, Alpha: true},
+		Call:  func(a *vkArgs) { ScalUnitary(a.Alpha, a.X) }},
+	{Name: "ScalUnitaryTo", Family: "Scal", Classes: vkAll, Ref: ik.RefScalUnitaryTo[complex64],
+		Shape: ik.Shape{HasX: true, HasDst: true, Alpha: true, AliasX: true},
+		Call:  func(a *vkArgs) { ScalUnitaryTo(a.Dst, a.Alpha, a.X) }},
+	{Name: "ScalInc", Family: "Scal", Classes: vkAll, Ref: ik.RefScalInc[complex64],
+		Shape: ik.Shape{HasX: true, Inc: true, WritesX: true, Alpha: true},
+		Call:  func(a *vkArgs) { ScalInc(a.Alpha, a.X, a.N, a.IncX) }},
+	{Name: "ScalIncTo", Family: "Scal", Classes: vkAll, Ref: ik.RefScalIncTo[complex64],
+		Shape: ik.Shape{HasX: true, HasDst: true, Inc: true, Alpha: true, AliasX: true},
+		Call:  func(a *vkArgs) { ScalIncTo(a.Dst, a.IncD, a.Alpha, a.X, a.N, a.IncX) }},
+	{Name: "SscalUnitary", Family: "Scal", Classes: vkAll, Ref: ik.RefRealScalUnitary[complex64],
+		Shape: ik.Shape{HasX: true, WritesX: true, RealAlpha: true},
+		Call:  func(a *vkArgs) { SscalUnitary(float32(a.RAlpha), a.X) }},
+	{Name: "SscalInc", Family: "Scal", Classes: vkAll, Ref: ik.RefRealScalInc[complex64],
+		Shape: ik.Shape{HasX: true, Inc: true, WritesX: true, RealAlpha: true},
+		Call:  func(a *vkArgs) { SscalInc(float32(a.RAlpha), a.X, a.N, a.IncX) }},
+	{Name: "Add", Family: "Elem", Classes: vkAll, Ref: ik.RefAdd[complex64],
+		Shape: ik.Shape{HasX: true, HasY: true, WritesY: true},
+		Call:  func(a *vkArgs) { Add(a.Y, a.X) }},
+	{Name: "AddConst", Family: "Elem", Classes: vkAll, Ref: ik.RefAddConst[complex64],
+		Shape: ik.Shape{HasX: true, WritesX: true, Alpha: true},
+		Call:  func(a *vkArgs) { AddConst(a.Alpha, a.X) }},
+	{Name: "CumSum", Family: "Elem", Classes: vkAll, Ref: ik.RefCumSum[complex64],
+		Shape: ik.Shape{HasX: true, HasDst: true, RetDst: true, AliasX: true},
+		Call:  func(a *vkArgs) { a.RetS = CumSum(a.Dst, a.X) }},
+	{Name: "CumProd", Family: "Elem", Classes: vkAll, Ref: ik.RefCumProd[complex64],
+		Shape: ik.Shape{HasX: true, HasDst: true, RetDst: true, AliasX: true},
+		Call:  func(a *vkArgs) { a.RetS = CumProd(a.Dst, a.X) }},
+	{Name: "Div", Family: "Elem", Classes: vkAll, Ref: ik.RefDiv[complex64],
+		Shape: ik.Shape{HasX: true, HasY: true, WritesY: true},
+		Call:  func(a *vkArgs) { Div(a.Y, a.X) }},
+	{Name: "DivTo", Family: "Elem", Classes: vkAll, Ref: ik.RefDivTo[complex64],
+		Shape: ik.Shape{HasX: true, HasY: true, HasDst: true, RetDst: true, AliasX: true, AliasY: true},
+		Call:  func(a *vkArgs) { a.RetS = DivTo(a.Dst, a.X, a.Y) }},
+	{Name: "Sum", Family: "Norm", Classes: vkNoSpec, Red: ik.RedSum,
+		Shape: ik.Shape{HasX: true},
+		Call:  func(a *vkArgs) { a.Ret = vkRet(Sum(a.X)) }},
+	{Name: "L2NormUnitary", Family: "Norm", Classes: vkAll, Red: ik.RedL2,
+		Shape: ik.Shape{HasX: true},
+		Call:  func(a *vkArgs) { a.Ret = complex(float64(L2NormUnitary(a.X)), 0) }},
+	{Name: "L2DistanceUnitary", Family: "Norm", Classes: vkAll, Red: ik.RedL2Dist,
+		Shape: ik.Shape{HasX: true, HasY: true},
+		Call:  func(a *vkArgs) { a.Ret = complex(float64(L2DistanceUnitary(a.X, a.Y)), 0) }},
+}
+
+func TestVKAxpy(t *testing.T) { ik.RunFamily(t, "c64", vkOps, "Axpy") }
+func TestVKDot(t *testing.T)  { ik.RunFamily(t, "c64", vkOps, "Dot") }
+func TestVKScal(t *testing.T) { ik.RunFamily(t, "c64", vkOps, "Scal") }
+func TestVKElem(t *testing.T) { ik.RunFamily(t, "c64", vkOps, "Elem") }
+func TestVKNorm(t *testing.T) { ik.RunFamily(t, "c64", vkOps, "Norm") }
